@@ -142,7 +142,7 @@ Theorem nonpositive_depth f a b eps depth : (depth <= 0)%Z -> integrate ROps f a
 Proof. intros H. unfold integrate. replace (Z.to_nat depth) with (Z.to_nat 0) by lia. reflexivity. Qed.
 
 (** ** Evaluation points lie in the closed interval *)
-Lemma core_inside f n : forall a b eps, a <= b -> Forall (fun x => a <= x <= b) (trc (core f a b eps n)).
+Lemma core_inside f n : forall a b eps, a <= b -> List.Forall (fun x => a <= x <= b) (trc (core f a b eps n)).
 Proof.
   induction n as [|n IH]; intros a b eps H.
   - rewrite core_O. unfold trc. cbn [snd]. repeat constructor; lra.
@@ -150,13 +150,13 @@ Proof.
     + unfold trc. cbn [snd]. repeat constructor; lra.
     + cbv zeta. unfold trc at 1. cbn [snd].
       constructor; [lra|]. constructor; [lra|].
-      apply Forall_app. split.
-      * eapply Forall_impl; [|apply IH; lra]. cbv beta. intros; lra.
-      * eapply Forall_impl; [|apply IH; lra]. cbv beta. intros; lra.
+      apply List.Forall_app. split.
+      * eapply List.Forall_impl; [|apply IH; lra]. cbv beta. intros; lra.
+      * eapply List.Forall_impl; [|apply IH; lra]. cbv beta. intros; lra.
 Qed.
 
 Theorem eval_points_inside f a b eps depth :
-  Forall (fun x => Rmin a b <= x <= Rmax a b) (trc (integrate ROps f a b eps depth)).
+  List.Forall (fun x => Rmin a b <= x <= Rmax a b) (trc (integrate ROps f a b eps depth)).
 Proof.
   destruct (Rtotal_order a b) as [H|[H|H]].
   - rewrite integrate_lt by exact H. unfold trc at 1. cbn [snd].
